@@ -61,15 +61,34 @@ type awaited struct {
 	releasedAll bool // the watchdog path released every user function before the call returned
 }
 
-func (r *run) releaseAll() {
+// releaseHolds opens every hold of the harness (stall, outliver, the inflight
+// family's gates). What a user function can still be waiting for afterwards is
+// core/mr: the generator's send on the source channel, the reducer's pipe, a
+// Write or cancel call.
+func (r *run) releaseHolds() {
 	r.closeOnce(2, r.stallRelease)
 	r.closeOnce(3, r.outRelease)
 	r.closeOnce(6, r.genHold)
 	r.closeOnce(7, r.redGo)
+}
+
+// releaseAll additionally aborts the run: the generator's send and the reducer's
+// receive give up as well, so every user function returns.
+func (r *run) releaseAll() {
+	r.releaseHolds()
 	select {
 	case <-r.abort:
 	default:
 		close(r.abort)
+	}
+}
+
+func (r *run) aborted() bool {
+	select {
+	case <-r.abort:
+		return true
+	default:
+		return false
 	}
 }
 
@@ -157,20 +176,89 @@ func execute(c *kit.Case, p plan) {
 	r.closeOnce(2, r.stallRelease)
 	r.closeOnce(3, r.outRelease)
 	if feedDone != nil {
-		t := time.NewTimer(watchdog)
-		select {
-		case <-feedDone:
-			t.Stop()
-		case <-t.C:
-			r.releaseAll()
-			<-feedDone
-			c.Obs("feeder_released_by_watchdog", 1)
-		}
+		r.awaitFeeder(feedDone)
 	}
 	finish()
 	settle(base)
 	leakFree := r.census(o)
+	if r.ctxDoneAtCall.Load() {
+		c.Obs("ctx_ended_before_call_runs", 1)
+		if leakFree && !r.aborted() && p.Items > 0 && (p.API == apiMR || p.API == apiVoid || p.API == apiForEach) {
+			// the goroutine the call started for the generator is gone although the harness never released it
+			c.Obs("ctx_ended_before_call_generator_goroutine_exited_unaided", 1)
+		}
+	}
 	r.judge(o, leakFree)
+}
+
+// awaitFeeder: MapReduceChan has returned; the harness goroutine that plays the
+// generator on the caller-owned source channel has to finish before the run can
+// be torn down. core/mr keeps draining that channel after the call returned (the
+// dispatcher's epilogue), so the feeder is normally done at once. The wait is
+// decided by state: when no goroutine of the call is left (or they are all
+// parked, unchanged) while the feeder has not moved, nobody will ever receive
+// from the source again; the feeder is not a goroutine started by the call, so
+// this is recorded as an observation, not judged, and the feeder is released.
+// Teardown never blocks on it: a feeder that does not come back is reported as
+// inconclusive and left behind.
+func (r *run) awaitFeeder(feedDone <-chan struct{}) {
+	deadline := time.Now().Add(watchdog)
+	wait := 2 * time.Millisecond
+	prev, same, sent := "", 0, int32(-1)
+	decided := false
+loop:
+	for time.Now().Before(deadline) {
+		t := time.NewTimer(wait)
+		select {
+		case <-feedDone:
+			t.Stop()
+			return
+		case <-t.C:
+		}
+		if wait < pollEvery {
+			wait *= 2
+		}
+		gs := kit.LabelledGoroutines(r.id)
+		fp, n := fingerprintOf(gs), r.genSent.Load()
+		if fp == prev && n == sent {
+			same++
+		} else {
+			prev, sent, same = fp, n, 0
+		}
+		if same == 0 {
+			continue
+		}
+		switch {
+		case r.genReturned.Load():
+			// the feeder function itself has returned: only the goroutine's epilogue is outstanding
+		case len(gs) == 0:
+			// the call has returned and none of its goroutines exists any more
+			decided = true
+			r.c.Obs("chan_source_left_undrained_by_returned_call", 1)
+			if r.ctxDoneAtCall.Load() {
+				r.c.Obs("chan_source_left_undrained_ctx_ended_before_call", 1)
+			}
+			break loop
+		case same >= stableNeeded-1:
+			if ok, _ := allParked(mrGoroutines()); ok {
+				decided = true
+				r.c.Obs("chan_feeder_released_with_call_goroutines_parked", 1)
+				break loop // the census judges the goroutines of the call that are left
+			}
+			same = 0
+		}
+	}
+	if !decided {
+		r.c.Obs("feeder_released_by_watchdog", 1)
+	}
+	r.releaseAll()
+	t := time.NewTimer(watchdog / 4)
+	defer t.Stop()
+	select {
+	case <-feedDone:
+	case <-t.C:
+		r.c.Inconclusive("teardown: the harness feeder of MapReduceChan did not return after release-all; left behind (plan " + r.planString() + ")")
+	}
 }
 
 // notReturned: the call has not returned although nothing changes any more.
@@ -197,6 +285,7 @@ func (r *run) notReturned(a awaited) {
 // census decides leak-freedom once the call has returned. Returns true if no
 // goroutine of the call is left.
 func (r *run) census(o outcome) bool {
+	genReported, dissolved := false, 0
 	for attempt := 0; attempt < 4; attempt++ {
 		leaked, conclusive := stableCensus(r.id, 50*time.Millisecond, stableNeeded, watchdog/2)
 		if !conclusive {
@@ -206,8 +295,59 @@ func (r *run) census(o outcome) bool {
 			return false
 		}
 		if len(leaked) == 0 {
+			if genReported {
+				return false
+			}
 			r.c.Obs("census_zero", 1)
+			if !r.aborted() {
+				r.c.Obs("census_zero_without_abort", 1)
+			}
 			return true
+		}
+		if !genReported && dissolved < 3 && !r.aborted() && onlyGeneratorsInSend(leaked) {
+			// The call has returned, yet the goroutine it started for the generator sits in the
+			// generator's send on the source channel and no other user function is running: the
+			// generator cannot return only because nobody receives from the channel the call
+			// handed to it. Decide by state whether that is for good.
+			r.releaseHolds()
+			key := "C10/leak/generator-abandoned-in-send/" + r.abandonClass()
+			every := abandonEvery
+			if abandonReported[key] >= 8 {
+				every /= 4 // this process has reported the class often enough with the full spacing
+			}
+			verdict, gs, dumps := r.confirmAbandoned(leaked, every)
+			switch verdict {
+			case abandonConfirmed:
+				abandonReported[key]++
+				genReported = true
+				r.c.Obs("leaks", 1)
+				r.c.Obs("generator_abandoned_in_send", 1)
+				st := mrGoroutines()
+				var states []string
+				for _, g := range st {
+					states = append(states, g.Text)
+				}
+				r.c.Viol(key,
+					"the call has returned and every other user function has returned, but the goroutine the call started for the generator (mr.buildSource) is parked for good in the generator's send on the source channel: nothing of the call is left that could receive from it (identical stacks in consecutive dumps, every core/mr goroutine parked, no progress of any user function in between)",
+					map[string]any{"plan": r.p, "outcome": o, "outcome_text": o.String(), "events": r.events(), "leaked": stacksOf(gs),
+						"core_mr_goroutines": states, "ctx_err_before_call": r.ctxDoneAtCall.Load(), "items_received_from_generator": r.genSent.Load(),
+						"further_identical_dumps": abandonDumps, "dump_spacing_ms": every.Milliseconds(), "dumps_taken": dumps})
+				// release the generator so that the case can be torn down; whatever else of the call is
+				// still there is judged by the next rounds
+				r.releaseAll()
+				attempt = -1
+				continue
+			case abandonUndecided:
+				r.c.Inconclusive("census: the generator sits in its send after the call returned, but the state of the call's goroutines never stood still (plan " + r.planString() + ")")
+				r.releaseAll()
+				markLeaked()
+				return false
+			}
+			// abandonGone: somebody is receiving after all, or another user function is running: look again
+			// (a few times; then the ordinary rules below apply)
+			dissolved++
+			attempt--
+			continue
 		}
 		if anyHeldByHarness(leaked) || (anyUserFrame(leaked) && r.panicWriteOrigin(leaked) == "") {
 			// a user function has not returned yet: the statement conditions on that
